@@ -107,7 +107,7 @@ class Ctx:
         return self._built[key]
 
     # ------------------------------------------------------------------ run
-    def run_child(self, name, argv, timeout, extra_env=None, cwd=None):
+    def run_child(self, name, argv, timeout, extra_env=None, cwd=None, race=False):
         """Run a stage child that writes a vr.Result JSON to $VERIF_OUT. Returns the dict."""
         out = os.path.join(self.work, 'out-%s.json' % name)
         logf = os.path.join(self.work, 'log-%s.txt' % name)
@@ -123,6 +123,9 @@ class Ctx:
             env['VERIF_ONLY_CASE'] = self.only_case
         if extra_env:
             env.update(extra_env)
+        racelog = os.path.join(self.work, 'race-%s' % name)
+        if race:
+            env['GORACE'] = 'halt_on_error=0 log_path=%s' % racelog
         os.makedirs(env['VERIF_WORK'], exist_ok=True)
         for f in (out, mark):
             if os.path.exists(f):
@@ -158,12 +161,53 @@ class Ctx:
                 res['harness_error'] = 'stage %s: watchdog expired after %ds (inconclusive); last case %r' % (name, timeout, markv)
             else:
                 res['child_died'] = {'rc': p.returncode, 'last_case': markv, 'log_tail': tail[-3000:]}
+        if race:
+            nrep, vio, herr = collect_races(racelog)
+            res['counters'] = res.get('counters') or {}
+            res['counters']['race_reports'] = nrep
+            res['violations'] = (res.get('violations') or []) + vio
+            if herr:
+                res['harness_error'] = herr
+            # a race-detector build exits 66 when reports were printed; not a crash
+            if res.get('child_died') and p.returncode == 66 and os.path.exists(out):
+                res.pop('child_died')
         res['_rc'] = p.returncode
         res['_wall'] = dt
         res['_log'] = logf
         res['_mark'] = markv
         res['_log_tail'] = tail
         return res
+
+
+def collect_races(prefix):
+    """Parse GORACE log files; returns (n_reports, violations, harness_error)."""
+    import re
+    reports = []
+    for f in sorted(glob.glob(prefix + '.*')):
+        txt = open(f, errors='replace').read()
+        for blk in txt.split('=================='):
+            if 'WARNING: DATA RACE' in blk:
+                reports.append(blk)
+    vio = {}
+    herr = None
+    for blk in reports:
+        frames = re.findall(r'^\s+((?:github\.com/whawty/auth|main)[^\s(]*)\(', blk, re.M)
+        code = [fr for fr in frames if 'zz_verif' not in fr and not fr.startswith('main.Test') and not fr.startswith('main.zz')]
+        # frames of package main that come from overlay test files are named main.c10..., main.c11... etc.
+        code = [fr for fr in code if not re.match(r'main\.(c\d\d|ovl|verif)', fr)]
+        if code:
+            stacks = re.split(r'\n\s*\n', blk)
+            tops = []
+            for st in stacks:
+                m = re.findall(r'^\s+((?:github\.com/whawty/auth|main)[^\s(]*)\(', st, re.M)
+                m = [x for x in m if 'zz_verif' not in x and not re.match(r'main\.(c\d\d|ovl|verif|Test)', x)]
+                if m:
+                    tops.append(m[0])
+            sig = 'race:' + '|'.join(sorted(set(tops))[:3])
+            vio.setdefault(sig, {'sig': sig, 'what': 'data race reported by the Go race detector involving repository code', 'witness': blk.strip()[:3000]})
+        else:
+            herr = 'race report without repository frames (harness race?): ' + blk.strip()[:800]
+    return len(reports), list(vio.values()), herr
 
 
 # ---------------------------------------------------------------------- judging
